@@ -249,6 +249,13 @@ func c06MoreShares(r *Run) {
 	// "the stored entry decodes to the submitted certificate and chain" also when chains are kept
 	// outside the backend — rule sets of C14
 	r.Shared("C06.R10", func() { runC14(r) })
+	// "… at a single index whose stored entry decodes to the submitted certificate and chain": the extra data
+	// handed to the backend has the form the readers decode (full chain unless a chain hash was computed) and
+	// carries the validated chain — rule sets C01.R5 (leaf construction) and C01.R6 (what the chain service passes)
+	r.Shared("C06.R11", func() {
+		r.Rule("C01.R5")
+		c01LogLeaf(r)
+	})
 }
 
 func c06Forwarding(r *Run) {
